@@ -142,7 +142,13 @@ var c15Srcs = map[string]string{
 	"zone-miscased":  "add_key(ts, \"2021-03-03 01:06:07\")\ndefault_time(ts, \"pacific/kiritimati\")\np(get_key(ts), get_key(pl_msg))\n",
 	"zone-upper":     "add_key(ts, \"2021-03-03 01:06:07\")\ndefault_time(ts, \"ASIA/TOKYO\")\nadd_key(ts4, \"2021-03-03 01:06:07\")\ndefault_time(ts4, \"asia/Tokyo\")\np(get_key(ts), get_key(ts4))\n",
 	"lib":            "add_key(from_lib, \"lib\")\nb = 2\n",
-	"badrun":         "add_key(in_bad, 1)\nboom()\n",
+	// builtins that fail at run time because of a constant argument (a pattern that does not compile, an unknown layout), reached through use() and as an argument: the error and its call-site lines are those of THIS run
+	"badre":           "add_key(in_badre, 1)\nreplace(message, \"a(b\", \"x\")\nadd_key(after_badre, 1)\n",
+	"use-badre":       "add_key(m1, 1)\nuse(\"badre.p\")\np(\"unreachable\")\n",
+	"use-badre-twice": "for i = 0; i < 2; i = i + 1 {\n  if i == 0 {\n    add_key(first, 1)\n  }\n  use(\"badre.p\")\n}\n",
+	"arg-badre":       "add_key(k1, 1)\nadd_key(k2, replace(message, \"a(b\", \"x\"))\nadd_key(k3, 1)\n",
+	"arg-baddt":       "add_key(ts3, 1700000000)\nadd_key(k2, datetime(ts3, \"s\", \"no-such-layout-name\"))\n",
+	"badrun":          "add_key(in_bad, 1)\nboom()\n",
 }
 
 var c15Invalid = []string{"a b", "x = 0x", "-1e", "for a in 1e {}", "x = \"unterminated", "x = 'a\\q'", "if { }", "x = [1, 2", "))", "x = 1 / 0", "f(", "x = \"\"\"abc", "`raw", "a = \xff\xfe", "x = 1 +", "for ;; ", "{", "x = a[1:2:3:4]", "else {}", "x = 99999999999999999999999e9999"}
@@ -187,7 +193,7 @@ func (st *c15State) notePoint(pt *input.Point) {
 }
 
 func c15RunV1(st *c15State, main string, rs *drive.RunState, opts ...plrt.Opt) string {
-	set := map[string]string{"main.p": c15Srcs[main], "lib.p": c15Srcs["lib"], "badrun.p": c15Srcs["badrun"], "reader2.p": c15Srcs["reader2"]}
+	set := map[string]string{"main.p": c15Srcs[main], "lib.p": c15Srcs["lib"], "badrun.p": c15Srcs["badrun"], "reader2.p": c15Srcs["reader2"], "badre.p": c15Srcs["badre"]}
 	drive.Init()
 	var ok map[string]*plrt.Script
 	var errs map[string]error
@@ -244,7 +250,8 @@ func c15Pool(seed int64) []c15Op {
 	for _, name := range []string{"ok-simple", "ok-grok", "ok-loop", "ok-containers", "fail-mid-loop", "fail-type", "exit-early", "use-ok", "use-fail",
 		"void-after-val", "regs-full", "strfmt-print", "time", "xml-sql", "json", "rename-tag", "fail-nested-vars", "fail-in-use-branch", "reader", "reader-use",
 		"zone-canonical", "zone-offset", "zone-miscased", "zone-miscased", "zone-upper", "sql-backslash-literal", "sql-backslash-escape", "sql-backslash-both", "sql-backslash-both", "nested-literals", "nested-literals", "nested-literals-fail", "rename-onto-field", "rename-onto-tag", "rename-tag-onto-field", "rename-chain", "many-keys", "many-keys",
-		"grok-alias-digits", "grok-alias-letters", "grok-alias-top", "grok-alias-loop", "grok-alias-inner", "grok-alias-shadow", "grok-global-only"} {
+		"grok-alias-digits", "grok-alias-letters", "grok-alias-top", "grok-alias-loop", "grok-alias-inner", "grok-alias-shadow", "grok-global-only",
+		"use-badre", "use-badre", "use-badre-twice", "arg-badre", "arg-badre", "arg-baddt", "badre"} {
 		name := name
 		ops = append(ops, c15Op{"run:" + name, func(st *c15State) string { return c15RunV1(st, name, &drive.RunState{Budget: 20000}) }})
 	}
